@@ -70,9 +70,23 @@ def event(rows, ids, cid, variant, seed):
          "cols_as_list": as_list, "metric": metric, "t2": t2, "normalize": normalize, "boot": boot,
          "method": method, "sc": sc, "ec": ec, "pos_label": pos_label,
          "out": {"index": [], "columns_ok": True, "values": [], "lower": [], "upper": [], "ci_labels_same": True}}
+    # score column dtype: float64, int64 (thresholds v or v + 1/2) or float32 (thresholds one float64
+    # ulp off a float32 score, i.e. not representable in the column's dtype)
+    sdtype = ["float64", "int64", "float32"][(cid + v // 2) % 3]
+    e["sdtype"] = sdtype
+    if sdtype == "int64":
+        gg = gamma.ident()
+        scores = np.array([int(r[3]) for r in rows], dtype=np.int64)
+        ths = [gg.thr(t) for t in t2]
+    elif sdtype == "float32":
+        gg = gamma.Gamma("f32", lambda x: float(np.float32(0.1 * x + 0.3)), None)
+        scores = np.array([gg(r[3]) for r in rows], dtype=np.float32)
+        ths = [gg.thr(t, "lo" if (cid + t) % 2 else "hi") for t in t2]
+    else:
+        scores = np.array([float(G(r[3])) for r in rows])
+        ths = [G.thr(t) for t in t2]
     df = pd.DataFrame({"g1": ["_".join(r[0]) for r in rows], "g2": ["_".join(r[1]) for r in rows],
-                       "lab": [r[2] for r in rows], "score": [float(G(r[3])) for r in rows]})
-    ths = [G.thr(t) for t in t2]
+                       "lab": [r[2] for r in rows], "score": scores})
     cols = (["g1", "g2"] if ncols == 2 else ["g1"]) if as_list else "g1"
     kw = {}
     if boot != "none":
